@@ -205,6 +205,112 @@ let run_case (t : string list) : string =
        | Timeout.RequestTimeoutStatus t -> "status408 " ^ string_of_n t
        | Timeout.CallerTimeoutError t -> "callertimeout " ^ string_of_n t
        | Timeout.RaceUnspecified -> "unspecified")
+  | "authallow" :: csv :: _threads :: reqs ->
+      let allow =
+        if csv = "-" then []
+        else Stdlib.List.map n_of_string (Stdlib.String.split_on_char ',' csv)
+      in
+      let areqs =
+        Stdlib.List.mapi
+          (fun i s ->
+            { AuthLayer.a_sender =
+                (if s = "n" then None
+                 else Some (n_of_string (Stdlib.String.sub s 1 (Stdlib.String.length s - 1))));
+              a_tag = n_of_int i })
+          reqs
+      in
+      let outs = AuthLayer.run (AuthLayer.allowed_peers allow) areqs in
+      let f o =
+        match o with
+        | AuthLayer.Invoke r -> "inv:" ^ string_of_n r.AuthLayer.a_tag
+        | AuthLayer.Reply (st, p) -> "r" ^ string_of_n st ^ ":" ^ string_of_n p
+      in
+      let inv = Stdlib.List.map (fun r -> string_of_n r.AuthLayer.a_tag) (AuthLayer.invocations outs) in
+      Stdlib.String.concat " " (Stdlib.List.map f outs)
+      ^ " invoked=" ^ (if inv = [] then "-" else Stdlib.String.concat "," inv)
+  | "authfn" :: _threads :: reqs ->
+      (* the authorizer is the closure of the harness: verdict carried by the request *)
+      let verdicts = Array.of_list reqs in
+      let mark = n_of_int 1000000 in
+      let auth (r : AuthLayer.areq) =
+        let v = verdicts.(int_of_n r.AuthLayer.a_tag) in
+        if v = "ok" then ({ r with AuthLayer.a_tag = BinNat.N.add r.AuthLayer.a_tag mark }, None)
+        else (r, Some (n_of_int 0, r.AuthLayer.a_tag))
+      in
+      let areqs =
+        Stdlib.List.mapi (fun i _ -> { AuthLayer.a_sender = None; a_tag = n_of_int i }) reqs
+      in
+      let outs = AuthLayer.run auth areqs in
+      let f o =
+        match o with
+        | AuthLayer.Invoke r ->
+            let t = int_of_n r.AuthLayer.a_tag in
+            if t >= 1000000 then Printf.sprintf "inv:%d:seen" (t - 1000000) else Printf.sprintf "inv:%d" t
+        | AuthLayer.Reply (_, idx) ->
+            (* the reply is exactly the authorizer's response: d<status>:<payload> *)
+            let v = verdicts.(int_of_n idx) in
+            "r" ^ Stdlib.String.sub v 1 (Stdlib.String.length v - 1)
+      in
+      let inv =
+        Stdlib.List.map (fun r -> string_of_int (int_of_n r.AuthLayer.a_tag - 1000000)) (AuthLayer.invocations outs)
+      in
+      Stdlib.String.concat " " (Stdlib.List.map f outs)
+      ^ " invoked=" ^ (if inv = [] then "-" else Stdlib.String.concat "," inv)
+  | "inflight" :: mode :: max :: evs ->
+      let m = if mode = "block" then Inflight.Block else Inflight.ReturnError in
+      let max = n_of_string max in
+      let st = ref [] in
+      let out =
+        Stdlib.List.map
+          (fun ev ->
+            let kind = ev.[0] in
+            let rest = Stdlib.String.sub ev 1 (Stdlib.String.length ev - 1) in
+            let p, r =
+              match Stdlib.String.split_on_char '.' rest with
+              | [ p; r ] -> (n_of_string p, n_of_string r)
+              | _ -> failwith "bad inflight event"
+            in
+            let e =
+              match kind with
+              | 'a' -> Inflight.Arrive (p, r)
+              | 'f' | 'e' -> Inflight.Finish (p, r)
+              | 'c' -> Inflight.Cancel (p, r)
+              | _ -> failwith "bad inflight event kind"
+            in
+            let st', res = Inflight.step m max !st e in
+            st := st';
+            let o =
+              match res with
+              | Inflight.Entered [] -> "N"
+              | Inflight.Entered rs -> "E" ^ Stdlib.String.concat "," (Stdlib.List.map string_of_n rs)
+              | Inflight.Queued -> "Q"
+              | Inflight.Rejected -> "R"
+              | Inflight.NoOp -> "N"
+            in
+            Printf.sprintf "%s:%s;g%s" ev o (string_of_n (Inflight.gauge max p st')))
+          evs
+      in
+      Stdlib.String.concat " " out
+  | "gcra" :: t :: burst :: evs ->
+      let q = { Gcra.q_t = n_of_string t; q_burst = n_of_string burst } in
+      let st = ref [] in
+      let out =
+        Stdlib.List.map
+          (fun ev ->
+            match Stdlib.String.split_on_char '@' ev with
+            | [ k; at ] ->
+                let now = n_of_string at in
+                (* governor itself does not clamp the hint: wait = earliest - now *)
+                let tat = Gcra.tat_of q !st (n_of_string k) now in
+                let o, st' = Gcra.rate_call q !st (n_of_string k) now now in
+                st := st';
+                (match o with
+                 | Gcra.Forward -> "ok"
+                 | Gcra.TooMany _ -> "no:" ^ string_of_n (Gcra.wait_hint q tat now))
+            | _ -> failwith "bad gcra event")
+          evs
+      in
+      Stdlib.String.concat " " out
   | [ "version"; v ] ->
       (match Wire.version_new (n_of_string v) with
        | Base.Ok v -> "OK " ^ string_of_n v
